@@ -976,7 +976,7 @@ def df_method(it, obj, name, args, kw):
 # ---------------------------------------------------------------------- external modules
 def ext_attr(it, modname, attr):
     full = f"{modname}.{attr}"
-    consts = {"np.nan": None, "np.inf": INF, "math.inf": INF, "np.newaxis": None, "math.pi": Fr(355, 113), "np.float64": _TypeProxy(float, lambda x=0.0: x),
+    consts = {"np.nan": None, "np.inf": INF, "math.inf": INF, "np.newaxis": None, "math.pi": Fr(355, 113), "np.pi": Fr(355, 113), "np.float64": _TypeProxy(float, lambda x=0.0: x),
               "np.NaN": None, "sys.float_info.epsilon": Fr(1, 2 ** 52)}
     if full in consts:
         return consts[full]
